@@ -67,19 +67,45 @@ theorem C02_specMaxLevel_is_max (cfg : Config) :
         · right; exact ⟨x, by simp, by rw [h3]; omega⟩
       · right; exact ⟨l, by simp [hl], h3⟩
 
-/-- Invariant over all histories (any init path, then any number of `set_config`): the facade's global
-maximum equals what the installed logger reports, and the installed configuration is the last one given. -/
+/-- Invariant over all histories — any init path, then any sequence of `set_config` calls and of further
+(failing) initialisation attempts at any position, with any configuration (valid or not) in the failed
+attempts: the facade's global maximum equals what the installed logger reports, and the installed
+configuration is the last one that was *installed* (a failed attempt installs nothing). -/
 theorem C02_globalMax_inv (h : History) (s : State) (hr : run h = some s) :
-    maxLogLevel s.cfg = some s.globalMax ∧ s.cfg = (h.first :: h.reconfigs).getLast (by simp) := by
-  unfold run at hr
+    maxLogLevel s.cfg = some s.globalMax ∧ s.cfg = (installedCfgs h).getLast (by simp [installedCfgs]) := by
+  unfold run runWith at hr
   cases hi : install h.first with
   | none => simp [hi] at hr
   | some s0 =>
     simp only [hi] at hr
     obtain ⟨hc, hm⟩ := install_inv hi
-    have := reconfigure_inv h.reconfigs s0 s (hc ▸ hm) hr
+    have := steps_inv h.steps s0 s (hc ▸ hm) hr
     rw [hc] at this
     exact this
+
+/-- A failed re-initialisation is invisible: removing all of them from a history gives the same state. -/
+theorem C02_failed_reinit_changes_nothing (h : History) :
+    run h = run { h with steps := h.steps.filter fun
+      | .setConfig _ => true
+      | .reinit _ _ => false } := by
+  unfold run runWith
+  cases install h.first with
+  | none => rfl
+  | some s0 =>
+    simp only
+    generalize h.steps = sts
+    induction sts generalizing s0 with
+    | nil => rfl
+    | cons st sts ih =>
+      cases st with
+      | setConfig c =>
+        simp only [List.filter_cons, steps, step, if_true]
+        cases install c with
+        | none => rfl
+        | some s' => exact ih s'
+      | reinit p c =>
+        simp only [List.filter_cons, steps, step, reinit, if_true]
+        exact ih s0
 
 /-- … hence, for valid configurations, the most verbose level among root and loggers of the current one —
 after levels went up and after they went down. -/
@@ -89,11 +115,14 @@ theorem C02_globalMax_eq_spec (h : History) (s : State) (hr : run h = some s) (h
   rw [C02_maxLevel_eq s.cfg hv] at h1
   exact (Option.some.inj h1).symm
 
-/-- A history of valid configurations always runs (no panic), whatever the init path. -/
-theorem C02_run_total (h : History) (hv : ∀ c ∈ h.first :: h.reconfigs, Valid c) : (run h).isSome = true := by
-  obtain ⟨s0, hs0⟩ := install_of_valid h.first (hv _ (by simp))
-  simp only [run, hs0]
-  exact reconfigure_total h.reconfigs s0 (fun c hc => hv c (by simp [hc]))
+/-- A history whose installed configurations are valid always runs (no panic), whatever the init path and
+whatever the failed attempts carried. -/
+theorem C02_run_total (h : History) (hv : ∀ c ∈ installedCfgs h, Valid c) : (run h).isSome = true := by
+  obtain ⟨s0, hs0⟩ := install_of_valid h.first (hv _ (by simp [installedCfgs]))
+  simp only [run, runWith, hs0]
+  refine steps_total h.steps s0 (fun c hc => hv c ?_)
+  simp only [installedCfgs, List.mem_cons, List.mem_filterMap]
+  exact Or.inr ⟨_, hc, rfl⟩
 
 /-- Logging through the macros equals routing: the facade filter `lvl ≤ max_level()` never drops a record
 the installed configuration admits (and of course adds none). -/
@@ -134,7 +163,8 @@ theorem C02_macro_eq_spec (h : History) (s : State) (hr : run h = some s) (hv : 
     (t : Name) (lvl : Nat) : macroLog s t lvl = some (specDeliver s.cfg t lvl) := by
   rw [C02_macro_eq_route h s hr, deliver_eq_spec s.cfg hv]
 
-/-! ### non-vacuity: only a deep descendant is verbose; levels go up and then down -/
+/-! ### non-vacuity: only a deep descendant is verbose; levels go up and then down; failed re-initialisations
+(quieter, more verbose, not even valid) before, between and after the reconfigurations -/
 
 def exQuiet : Config :=
   { appenders := [['x']], rootLevel := 1, rootAppenders := [['x']], loggers := [] }
@@ -145,16 +175,44 @@ def exDeep : Config :=
       { name := ['a', ':', ':', 'b', ':', ':', 'c'], level := 5, additive := false, appenders := [['x']] },
       { name := ['a'], level := 1, additive := true, appenders := [] }] }
 
-def exHistory : History := { path := .config, first := exQuiet, reconfigs := [exDeep, exQuiet] }
+def exOff : Config :=
+  { appenders := [['x']], rootLevel := 0, rootAppenders := [['x']], loggers := [] }
+
+/-- not even valid: a dangling appender reference and a malformed logger name -/
+def exBroken : Config :=
+  { appenders := [], rootLevel := 5, rootAppenders := [['q']],
+    loggers := [{ name := ['a', ':', 'b'], level := 5, additive := true, appenders := [] }] }
+
+def exHistory : History :=
+  { path := .config, first := exQuiet,
+    steps := [.reinit .rawConfig exBroken, .setConfig exDeep, .reinit .config exOff, .setConfig exQuiet,
+      .reinit .configWithErrHandler exDeep] }
+
+/-- The historical behaviour (before d39d776, `runWith false`): after a successful initialisation with the
+deep-verbose configuration, a second `init_config` with an all-Off configuration failed but had already
+lowered the global maximum to Off — the TRACE record the installed configuration admits (routing delivers
+it to `x`, `enabled` says true) is dropped by the facade filter. -/
+theorem C02_failed_reinit_broke_gating_unfixed :
+    ∃ (h : History) (s : State) (t : Name) (lvl : Nat),
+      (∀ c ∈ installedCfgs h, Valid c) ∧ runWith false h = some s ∧
+      enabled s.cfg t lvl = some true ∧ deliver s.cfg t lvl = some [['x']] ∧ macroLog s t lvl = some [] ∧
+      macroLog s t lvl ≠ deliver s.cfg t lvl ∧ maxLogLevel s.cfg ≠ some s.globalMax := by
+  refine ⟨{ path := .config, first := exDeep, steps := [.reinit .config exOff] },
+    { cfg := exDeep, globalMax := 0 }, ['a', ':', ':', 'b', ':', ':', 'c'], 5, ?_, ?_, ?_, ?_, ?_, ?_, ?_⟩
+  · intro c hc
+    have : c = exDeep := by simpa [installedCfgs] using hc
+    subst this
+    unfold Valid; decide
+  all_goals decide
 
 example : Valid exDeep := by unfold Valid; decide
 example : Valid exQuiet := by unfold Valid; decide
 /-- test on a sample: the global maximum follows the deep logger up … -/
-example : (run { exHistory with reconfigs := [exDeep] }).map (·.globalMax) = some 5 := by decide
+example : (run { exHistory with steps := exHistory.steps.take 3 }).map (·.globalMax) = some 5 := by decide
 /-- … and the quiet configuration down again -/
 example : (run exHistory).map (·.globalMax) = some 1 := by decide
 /-- test on a sample: a TRACE record for the deep logger passes the facade and reaches `x` -/
-example : (run { exHistory with reconfigs := [exDeep] }).bind
+example : (run { exHistory with steps := exHistory.steps.take 3 }).bind
     (fun s => macroLog s ['a', ':', ':', 'b', ':', ':', 'c', ':', ':', 'd'] 5) = some [['x']] := by decide
 
 end Log4rs.Routing.Tree
